@@ -173,6 +173,9 @@ impl ParallelRuleEngine {
         let chunk_size = rules.len().div_ceil(self.config.max_threads);
         let chunks: Vec<_> = rules.chunks(chunk_size).collect();
 
+        #[cfg(rre_verif)]
+        let verif_seed = verif_sched::seed();
+
         let handles: Vec<_> = chunks
             .into_iter()
             .enumerate()
@@ -188,7 +191,14 @@ impl ParallelRuleEngine {
                     }
 
                     let mut thread_results = Vec::new();
+                    #[cfg(rre_verif)]
+                    let mut verif_step = 0usize;
                     for rule in chunk {
+                        #[cfg(rre_verif)]
+                        {
+                            verif_sched::point(verif_seed, thread_id, verif_step);
+                            verif_step += 1;
+                        }
                         let start = Instant::now();
                         // Pass functions to evaluator
                         let fired =
@@ -221,6 +231,8 @@ impl ParallelRuleEngine {
                         });
                     }
 
+                    #[cfg(rre_verif)]
+                    verif_sched::point(verif_seed, thread_id, usize::MAX);
                     let mut results = results_clone.lock().unwrap();
                     results.extend(thread_results);
                 })
@@ -749,6 +761,36 @@ impl ParallelRuleEngine {
             total_time.as_nanos() as f64 / max_time.as_nanos() as f64
         } else {
             1.0
+        }
+    }
+}
+
+/// Verification hook (compiled only with `--cfg rre_verif`): seeded schedule points that
+/// perturb the interleaving of the worker threads. The seed is read from the environment
+/// variable `RRE_VERIF_SCHED` by the spawning thread; 0 / unset = no perturbation.
+#[cfg(rre_verif)]
+mod verif_sched {
+    pub fn seed() -> u64 {
+        std::env::var("RRE_VERIF_SCHED")
+            .ok()
+            .and_then(|s| s.parse().ok())
+            .unwrap_or(0)
+    }
+
+    pub fn point(seed: u64, thread_id: usize, step: usize) {
+        if seed == 0 {
+            return;
+        }
+        let mut z = seed
+            ^ (thread_id as u64).wrapping_mul(0x9E37_79B9_7F4A_7C15)
+            ^ (step as u64).wrapping_mul(0xD1B5_4A32_D192_ED03);
+        z = (z ^ (z >> 30)).wrapping_mul(0xBF58_476D_1CE4_E5B9);
+        z = (z ^ (z >> 27)).wrapping_mul(0x94D0_49BB_1331_11EB);
+        z ^= z >> 31;
+        match z % 4 {
+            0 => {}
+            1 => std::thread::yield_now(),
+            _ => std::thread::sleep(std::time::Duration::from_micros((z >> 8) % 150)),
         }
     }
 }
